@@ -1,7 +1,7 @@
 import json, os, subprocess
 
 SPEC = {
-    "lean_modules": ["SemaModel.C05.Props", "SemaModel.C05.Formula"],
+    "lean_modules": ["SemaModel.C05.Props", "SemaModel.C05.Formula", "SemaModel.C05.Pins"],
     "lean_dirs": ["SemaModel/C05"],
     "harness": "c05",
     "harness_args": {"quick": ["-n", 900, "-q", 6], "thorough": ["-n", 6000, "-q", 8]},
